@@ -240,7 +240,7 @@ def handleLine (st : State) (line : String) : State × String :=
     | _, _, _ => (st, "bad-conc")
   | ["alias", _inp, _outCopy, _out, ok] =>
     -- a result handed out earlier changed (or the caller's input buffer did) while the library was used again
-    (st, verdict true "-" (if ok == "1" then [] else ["C13", "C15"]) [])
+    (st, verdict true "-" (if ok == "1" then [] else ["C01", "C13", "C15"]) [])
   | ["perm", pa, pb, inp, oa, ob] =>
     match getPolicy st pa, getPolicy st pb, unhexField inp with
     | some p, some q, some b =>
